@@ -1,6 +1,7 @@
 import LentilVerif.Model.Field
 import LentilVerif.Model.Fourier
 import LentilVerif.Gen.Helper
+import LentilVerif.Gen.PlanePhase
 /-! Executable model of `lentil.plane.Plane.multiply` (per-segment phasors, fields × segments loop) and of the
 `Wavefront` views `field`, `intensity`, `insert` (`lentil/wavefront.py`). Generic in the value type `K` of the field and
 the type `R` of optical path differences; Mathlib-free. The slice offset is the *generated* `Gen.sliceOffset`
@@ -84,8 +85,9 @@ def PlaneM.shape (p : PlaneM K R) : Option (Int × Int) :=
 
 /-- the phase factor of `Plane.multiply`: `np.exp(2*np.pi*1j*opd/wavefront.wavelength)` — `CxLike.expI t` is `exp(i t)`;
 instantiated at `Float` by the driver and at `ℝ`/`ℂ` (`Complex.exp`) in Props/C07 -/
-def planePh [Mul R] [Div R] [RealLike R] [CxLike K R] (wavelength opd : R) : K :=
-  CxLike.expI (RealLike.twoPi * opd / wavelength)
+def planePh [Mul R] [Div R] [Neg R] [RealLike R] [CxLike K R] (wavelength opd : R) : K :=
+  -- the real multiplier of `1j` is the *generated* `Gen.planePhaseArg` (read off the np.exp(...) expression on every run)
+  CxLike.expI (Gen.planePhaseArg RealLike.twoPi opd wavelength)
 
 /-- `amp * mask` for a 0/1 mask entry -/
 def maskMul [Zero K] (b : Bool) (x : K) : K := if b then x else 0
